@@ -146,7 +146,7 @@ class KillProcess(object):
                         yield {'g': g, 'behaviour': beh, 'stop_children': stop_children,
                                'override_signal': override, 'g_override': None}
         # per-request graceful_timeout overrides, shorter and longer than the configured one
-        for g, go in ((1.0, 0.2), (30.0, 0.5), (0.2, 1.0), (0.0, 0.3)):
+        for g, go in ((1.0, 0.2), (30.0, 0.5), (0.2, 1.0), (0.0, 0.3), (1.0, 0.0), (5.0, 0)):     # 0 = SIGKILL at once
             for beh in ('ignores', 'obeys-fast', 'obeys-slow'):
                 yield {'g': g, 'behaviour': beh, 'stop_children': False, 'override_signal': None,
                        'g_override': go}
